@@ -382,6 +382,11 @@ def jobs(tier):
                             out.append(('pacing', dict(base, latency=True, sync=[])))
                         if n == 2:
                             out.append(('pacing', dict(base, sync=[], check_strict=False)))   # asynchronous, zero latency: all orders
+    # a consumer that steps more rarely than its producer (idle for several ticks while the producer lazily waits for it)
+    for grouped in (False,) if q else (False, True):
+        out.append(('pacing', {'f': '1', 'res': '1', 'grouped': grouped, 'n': 2, 'until': 5, 'K': 6, 'dmax': {'B': 3}, 'check_strict': False}))
+        if not q:
+            out.append(('pacing', {'f': '1/2', 'res': '1', 'grouped': grouped, 'n': 2, 'until': 5, 'K': 6, 'dmax': {'B': 3}, 'check_strict': False}))
     # simulators that are not connected at all (each runner task may complete whole steps before the others have started)
     for typ_b in ('time-based', 'event-based'):
         for sync in (['A', 'B'], [], ['A'], ['B']):
